@@ -126,6 +126,27 @@ fn cases(tier: Tier) -> &'static Vec<Case> {
                 }
             }
         }
+        // unread bodies after a long history of plain exchanges on the connection
+        for h in history_lengths(deep(tier)) {
+            let mut fr: Vec<(String, Vec<u8>, bool)> = vec![
+                ("cl1025".into(), post_cl("/b", &payload(1025)), false),
+                ("cl5".into(), post_cl("/b", &payload(5)), false),
+                ("chunked1025".into(), post_chunked("/b", &payload(1025), &[1000, 25]), true),
+            ];
+            let mut m = b"POST /b HTTP/1.1\r\nHost: t\r\nExpect: 100-continue\r\nContent-Length: 5\r\n\r\n".to_vec();
+            m.extend_from_slice(&payload(5));
+            fr.push(("cl5-expect".into(), m, false));
+            for (fl, msg, chunked) in fr {
+                for (pl, rp) in [("read0".to_string(), ReadPlan::None), ("read1by7".to_string(), ReadPlan::part(7, 1))] {
+                    for (finl, fin) in [("respond", Finish::Respond(RespSpec::ok(4))), ("drop", Finish::Drop)] {
+                        let mut bytes = history(h);
+                        bytes.extend_from_slice(&msg);
+                        bytes.extend_from_slice(&get("/n1"));
+                        v.push(Case { label: format!("history{}/{}/{}/{}/then-get", h, fl, pl, finl), bytes, plan: ReqPlan { read: rp.clone(), finish: fin.clone() }, chunked, consumed_all: false });
+                    }
+                }
+            }
+        }
         // bodies far larger than any buffer or any bound on discarding work: the unread rest
         // (megabytes, really sent) must still be skipped exactly
         let mib = 1usize << 20;
@@ -163,10 +184,14 @@ fn cases(tier: Tier) -> &'static Vec<Case> {
 }
 
 fn scenario(c: &Case) -> Scenario {
+    let h = history_len(&c.bytes);
+    let mut plans = vec![ReqPlan::simple(); h];
+    plans.push(c.plan.clone());
+    plans.push(ReqPlan::simple());
     Scenario::one_conn(
-        vec![c.bytes.clone()],
+        split_history(&c.bytes),
         AppProgram {
-            plans: vec![c.plan.clone(), ReqPlan::simple()],
+            plans,
             recv: RecvStyle::Recv, deferred: false, thread_per_request: false },
     )
 }
@@ -205,7 +230,7 @@ impl Check for C09 {
     }
     fn rule(&self, tier: Tier) -> String {
         format!(
-            "first request with body framing {:?} x consumption {{0, 1, len/2, len-1, len bytes without seeing end-of-stream, len/2 or len bytes followed by a read with an empty buffer, to end-of-stream}} with read sizes 1/7/4096 x finish {{respond, drop, into_writer raw response, drop during a handler panic}} x following pipelined requests {:?}; plus bodies of 1 MiB+100 / 2 MiB+1 (declared) and 1.5 MiB (chunked by 65536){} really sent, with 0 / 1 / half / all-but-1 MiB+1 bytes read, answered or dropped, then a GET; {} conversations; the requests delivered after the body-bearing one must be exactly the following ones (heads and bodies), each answered, no 400; non-trivial = the body was not read to its end",
+            "first request with body framing {:?} x consumption {{0, 1, len/2, len-1, len bytes without seeing end-of-stream, len/2 or len bytes followed by a read with an empty buffer, to end-of-stream}} with read sizes 1/7/4096 x finish {{respond, drop, into_writer raw response, drop during a handler panic}} x following pipelined requests {:?}; plus bodies of 1 MiB+100 / 2 MiB+1 (declared) and 1.5 MiB (chunked by 65536){} really sent, with 0 / 1 / half / all-but-1 MiB+1 bytes read, answered or dropped, then a GET; unread bodies (declared 5 / 1025, chunked 1025, Expect) after a history of 64 / 100 / 1024 (thorough: 19 lengths from 63 to 4097) answered exchanges; {} conversations; the requests delivered after the body-bearing one must be exactly the following ones (heads and bodies), each answered, no 400; non-trivial = the body was not read to its end",
             framings(tier).iter().map(|f| f.0.clone()).collect::<Vec<_>>(), followers(tier).iter().map(|f| f.0).collect::<Vec<_>>(), if deep(tier) { " and 5 MiB / 2 MiB chunked by 8192" } else { "" }, cases(tier).len()
         )
     }
